@@ -117,6 +117,7 @@ class KaniBuild:
         self.dst = dst
         self.findings = [f for f in findings if f.get("status") == "known" and f.get("engine", "kani") == "kani"]
         self.units: Dict[str, Unit] = {}
+        self.fallback = []
         self._sv = set()
         self.skipped: List[str] = []
         self.diff = ""
@@ -302,8 +303,24 @@ class KaniBuild:
         vac = "interpreter::interpreter::verif_l3::vacuity_must_fail"
         want = {self.units[n].fq: {"M": "z3", "S": "cadical-uf"}.get(self.units[n].klass, "cadical") for n in plain}
         want[vac] = "cadical"
+        try:
+            hints = json.load(open(os.path.join(VERIF, "contracts", "solver_hints.json")))
+        except Exception:
+            hints = {}
+        for fqn in list(want):
+            if fqn.split("::")[-1] in hints:
+                want[fqn] = hints[fqn.split("::")[-1]]
         meta = cbmc_driver.codegen(self.dst, list(want.keys()), log)
-        self.own = cbmc_driver.run_many(self.dst, meta, want, jobs, os.path.join(os.path.dirname(self.dst), "goto"), log)
+        gdir = os.path.join(os.path.dirname(self.dst), "goto")
+        self.own = cbmc_driver.run_many(self.dst, meta, want, jobs, gdir, log, timeout=240)
+        # the SMT back end occasionally does not finish on a 1 MB-memory unit; SAT with arrays as uninterpreted
+        # functions always has so far (~80 s, 11 GB each, hence at most 4 at a time)
+        slow = {fq: "cadical-uf" for fq, sv in want.items() if sv == "z3" and self.own.get(fq.split("::")[-1]) is not None
+                and self.own[fq.split("::")[-1]].status == "timeout"}
+        if slow:
+            again = cbmc_driver.run_many(self.dst, meta, slow, min(4, jobs), gdir, log, timeout=1500)
+            self.own.update(again)
+            self.fallback = sorted(again.keys())
         res.update(self.own)
         return res
 
